@@ -1695,6 +1695,13 @@ class K(Dummy):
         mna._D[m1, m2] += -ZM
         mna._D[m2, m1] += -ZM
 
+        if mna.kind == 'ivp':
+            # V1 = L1 (s I1 - i01) + M (s I2 - i02), so the initial
+            # current of each inductor also appears in the other's equation.
+            M = K.sympy * sym.sqrt(ZL1 * ZL2 / ssym**2)
+            mna._Es[m1] += -M * mna.cct.elements[L2].cpt.i0.sympy
+            mna._Es[m2] += -M * mna.cct.elements[L1].cpt.i0.sympy
+
 
 class L(RLC):
 
